@@ -39,8 +39,9 @@ SPECIAL = [
 
 def build(src):
     if src["kind"] == "cfg_rules":
+        vn = U.VAR_NAME_POOLS[src["vnames"]] if src.get("vnames") is not None else None
         return U.make_cfg([tuple(r) for r in src["rules"]], start=src.get("start"), V=src.get("V"),
-                          Sigma=src.get("Sigma"), eps=src.get("eps", "ε"))
+                          Sigma=src.get("Sigma"), eps=src.get("eps", "ε"), vnames=vn)
     raise ValueError(src)
 
 
